@@ -418,6 +418,25 @@ DIRECTED = [
     ('isar: struct named _discriminator used as a union arm (D177)', '--isar',
      {'a.xml': ISAR % ('<struct name="_discriminator"><member name="a" type="u64"/><member name="b" type="u64"/></struct>'
                        '<union name="U"><member name="x" type="_discriminator" discriminatorValue="1"/></union>')}, 'a.xml', 'reject'),
+    ('fields named like runtime names nothing captures (D187)', None,
+     {'a.prophy': 'struct Style { u32 indent; u32 width; u8 big; u16 little; u8 native; };\nunion V { 1: u8 big; 2: u16 little; };\n'}, 'a.prophy', 'usable'),
+    ('constants and enumerators named like blocks of the raw header (D187)', None,
+     {'a.prophy': 'const part3 = 3;\nenum Parts { part1 = 1, part2 = 2 };\nstruct P { u8 a<>; u8 b<>; Parts p; u8 c[part3]; };\n'}, 'a.prophy', 'usable'),
+    ('a field named part2 in a struct of several blocks (D187)', None,
+     {'a.prophy': 'struct Address { u32 part1; u32 part2; bytes street<>; bytes city<>; };\n'}, 'a.prophy', 'reject'),
+    ('a field named part1 in a struct of several blocks', None,
+     {'a.prophy': 'struct Address { u32 part1; u32 second; bytes street<>; bytes city<>; };\n'}, 'a.prophy', 'usable'),
+    ('isar: constant named discriminator_a used in a discriminator expression (D187)', '--isar',
+     {'a.xml': ISAR % ('<constant name="discriminator_a" value="7"/><union name="U"><member name="a" type="u8" discriminatorValue="1"/>'
+                       '<member name="b" type="u16" discriminatorValue="discriminator_a + 1"/></union>')}, 'a.xml', 'reject'),
+    ('isar: 0x..E+ inside a name (D188)', '--isar',
+     {'a.xml': ISAR % '<constant name="OFFSET_0xE" value="14"/><constant name="NEXT" value="OFFSET_0xE+1"/><struct name="S"><member name="a" type="u8"><dimension size="NEXT"/></member></struct>'},
+     'a.xml', 'usable'),
+    ('isar: 201 nested parentheses (D188)', '--isar', {'a.xml': ISAR % ('<constant name="K" value="%s3%s"/>' % ('(' * 201, ')' * 201))}, 'a.xml', 'reject'),
+    ('isar: 60 nested parentheses', '--isar',
+     {'a.xml': ISAR % ('<constant name="K" value="%s3%s"/><struct name="S"><member name="a" type="u8"><dimension size="K"/></member></struct>' % ('(' * 60, ')' * 60))},
+     'a.xml', 'usable'),
+    ('isar: a sum of 3000 terms (D188)', '--isar', {'a.xml': ISAR % ('<constant name="K" value="%s"/>' % '+'.join(['1'] * 3000))}, 'a.xml', 'reject'),
     ('isar: a tab inside expression text (D181)', '--isar',
      {'a.xml': ISAR % '<constant name="K" value="1&#9;+ 2"/><struct name="S"><member name="x" type="u8"><dimension size="K&#9;+1"/></member></struct>'}, 'a.xml', 'usable'),
     ('isar: a form feed inside expression text', '--isar',
